@@ -103,6 +103,23 @@ def impl(case):
                   'd_parts': [float(x.tracer_diffusivity(dimensions=case['dim'])) for x in pm],
                   'v_parts': [float(x.vibration_amplitude()) for x in pm],
                   'c_parts': [float(x.tracer_conductivity(z_ion=case['z'], dimensions=case['dim'])) for x in pm]}
+    # mean / standard deviation over trajectories that differ in cell volume and temperature (replicas, heating-ramp segments)
+    if case.get('as_disp'):
+        # (not for the displacement hand-over with base positions off the first frame: after split() converted it to positions, the next
+        #  displacement query re-bases it -- pymatgen keeps the old base positions -- which is that input class's own fragility, see D20)
+        out['inputs_changed'] = guard.changed()
+        return out
+    other_case = dict(case, temp=case['temp'] + 217.0)
+    t_other = _metrics(other_case, k=case['k'])[1]
+    het = TrajectoryMetricsStd([traj, t_other])
+    hc = het.tracer_conductivity(z_ion=case['z'], dimensions=case['dim'])
+    hd = het.tracer_diffusivity(dimensions=case['dim'])
+    hv = het.vibration_amplitude()
+    ind = [t.metrics() for t in (traj, t_other)]
+    out['het'] = {'c': [hc.n, hc.s], 'd': [hd.n, hd.s], 'v': [hv.n, hv.s],
+                  'c_parts': [float(x.tracer_conductivity(z_ion=case['z'], dimensions=case['dim'])) for x in ind],
+                  'd_parts': [float(x.tracer_diffusivity(dimensions=case['dim'])) for x in ind],
+                  'v_parts': [float(x.vibration_amplitude()) for x in ind]}
     out['inputs_changed'] = guard.changed()
     return out
 
@@ -168,11 +185,13 @@ def oracle(case, out):
     for name, got, want in laws:
         if not _close(got, want, 1e-8):
             fs.append((f'scaling/time:{name}', f'scaling the time step by {s}: {name} = {got}, expected {want}'))
-    st = out['std']
-    for key in ('d', 'v', 'c'):
+    for name_, st in (('sub-trajectories', out['std']), ('trajectories of different cell volume and temperature', out.get('het'))):
+      if st is None:
+        continue
+      for key in ('d', 'v', 'c'):
         parts = st[key + '_parts']
         if not (_close(st[key][0], float(np.mean(parts))) and abs(st[key][1] - float(np.std(parts))) <= 1e-9 * abs(float(np.mean(parts))) + 1e-300):
-            fs.append(('metrics/std-variant', f'TrajectoryMetricsStd {key}: {st[key]} is not mean/std of {parts}'))
+            fs.append(('metrics/std-variant', f'TrajectoryMetricsStd over {name_}, {key}: {st[key]} is not mean/std of {parts}'))
     return fs
 
 
